@@ -81,6 +81,18 @@ def t4_nonce_sequence_is_one_per_key(ctx):
         ctx.ob("T4", parts[1], parts[2], o.where, o.ok, o.detail)
     for (r, w, e, f) in sub.floors:
         ctx.floor("T4", w, e, f)
+    # ... and the counter itself must keep producing *different* values for neighbouring units: a counter that sticks (saturates) gives every later
+    # unit the same nonce, after which units can be swapped, repeated or dropped and still authenticate (C03 S3 `chunk-counter-wraps` re-evaluated)
+    from . import c03
+    sub3 = Ctx(ctx.prog, "C03", ctx.tier)
+    c03.run(sub3)
+    n3 = 0
+    for o in sub3.obs:
+        if o.rule == "S3" and "chunk-counter" in o.key:
+            n3 += 1
+            parts = o.key.split("|")
+            ctx.ob("T4", parts[1], parts[2], o.where, o.ok, o.detail)
+    ctx.floor("T4", "chunk counters inspected (C03 S3)", 1, n3)
 
 
 def run(ctx):
